@@ -111,3 +111,25 @@ Proof.
   intros H. rewrite <- (ntake_ndrop n (ntake m l)).
   rewrite ntake_ntake, ndrop_ntake. f_equal. f_equal. lia.
 Qed.
+
+(* [has_n k l]: [l] has at least [k] elements; inspects at most the first [k] cells of [l] *)
+Fixpoint has_n {A} (k : nat) (l : list A) : bool :=
+  match k with
+  | O => true
+  | S k' => match l with [] => false | _ :: l' => has_n k' l' end
+  end.
+
+(* [has_len n l = (n <=? nlen l)], computed without walking [l] beyond its first [n] elements *)
+Definition has_len {A} (n : N) (l : list A) : bool := has_n (N.to_nat n) l.
+
+Lemma has_n_spec {A} (k : nat) (l : list A) : has_n k l = (k <=? length l)%nat.
+Proof.
+  revert l; induction k as [|k IH]; intros l; [reflexivity|].
+  destruct l as [|x l]; cbn [has_n length]; [reflexivity|]. rewrite IH. reflexivity.
+Qed.
+
+Lemma has_len_spec {A} (n : N) (l : list A) : has_len n l = (n <=? nlen l).
+Proof.
+  unfold has_len, nlen. rewrite has_n_spec.
+  destruct (Nat.leb_spec (N.to_nat n) (length l)); destruct (N.leb_spec n (N.of_nat (length l))); try reflexivity; lia.
+Qed.
